@@ -19,6 +19,14 @@ class RBoom(Exception):
         self.i = i
 
 
+class RBase(BaseException):
+    """the BaseException-only raise kind (armed by a negative probe number): nothing inside a render catches it"""
+
+    def __init__(self, i):
+        BaseException.__init__(self, i)
+        self.i = i
+
+
 class Env:
     """one render callable's view: its caller (closure or None) and its own loop stack"""
 
@@ -57,15 +65,18 @@ class Ref:
         self.inside = []  # construct path at each raise
         self.writes_after = 0  # writes since the last raise
         escaped = None
+        self.base_escaped = False
         root = self.prog["root"]
         try:
             self.block(self.prog["files"][root]["body"], Env(None, root))
-        except RBoom as e:
+        except (RBoom, RBase) as e:
             escaped = e.i
+            self.base_escaped = isinstance(e, RBase)
         assert len(self.bufs) == 1 and not self.path
         return {
             "out": "".join(self.bufs[0]),
             "escaped": escaped,
+            "base": self.base_escaped,
             "raised": list(self.raised),
             "inside": list(self.inside),
             "after": self.writes_after,
@@ -91,6 +102,13 @@ class Ref:
             self.inside.append(list(self.path))
             self.writes_after = 0
             raise RBoom(i)
+        if -i in self.T:
+            self.pkinds.append(kind)
+            self.T.remove(-i)
+            self.raised.append(-i)
+            self.inside.append(list(self.path))
+            self.writes_after = 0
+            raise RBase(i)
 
     def push(self):
         self.bufs.append([])
